@@ -432,6 +432,10 @@ def _run_check(prop, tier, seed, replay=None):
                                    "note": "a theorem or correspondence no longer checks; the failing-input search found no concrete input"})
         lines.append(f"VIOLATION property={prop} replay={path} no-failing-input-found")
         status = 1
+    if status == 0 and srch.get("error"):
+        # the failing-input search crashed: a machinery error, never a pass and never a VIOLATION
+        lines.append(f"ERROR property={prop} the search raised: {srch.get('summary', '')[:300]}")
+        status = 2
     wall = time.time() - ctx.t0
     cov = {
         "obligations": obligations, "discharged": discharged,
